@@ -5,6 +5,7 @@ mod c12;
 mod c14;
 mod c15a;
 mod c16;
+mod c16b;
 mod c19a;
 mod pipe;
 
